@@ -60,7 +60,7 @@ theorem take_drop_buf (f b : Bytes) (hf : f.length ≤ BUF) :
 theorem answer_seg (app : App) (s : Seg) (hex : SegExact s) :
     answer app s.bytes = (match parse s.1 s.2.flatten with
       | .ok p => some (app.respond none p, wantsClose p)
-      | .reject st => some (app.reject st, false)
+      | .reject st => some (app.reject st, true)
       | _ => none) := by
   obtain ⟨f, ps⟩ := s
   obtain ⟨hne, hlen, hps, hshape⟩ := hex
@@ -124,10 +124,7 @@ theorem segmentation_independent (app : App) : ∀ (segs : List Seg), (∀ s ∈
         have hp' := (parse_more f [] (chunksOf segs).flatten).2 st hp
         simp only [List.nil_append, List.flatten_nil] at hp' ⊢
         rw [hp']
-        dsimp only
-        have := ih hex' n hfn { parsed := none, buf0 := f.headD 0 } eof
-        simp only [forget] at this ⊢
-        rw [this]; simp
+        simp [forget]
       | ok p =>
         simp only [hp] at hshape
         have hp' := (parse_more f ps.flatten (chunksOf segs).flatten).1 p hp
